@@ -270,7 +270,7 @@ func execute(c Case) ([]*execution, error) {
 		cases = []Case{c, followUp(c)}
 		par = 2
 		shared = reqResources(c)
-		if len(c.Req) == 0 && c.Orig.NilParts {
+		if len(c.Req) == 0 && c.Orig.NilParts && !c.ReqDevRules {
 			cases = cases[:1] // nothing to share
 			par = 1
 		}
@@ -305,7 +305,7 @@ func execute(c Case) ([]*execution, error) {
 				ex.err = err
 			case "update":
 				rr := reqResources(c)
-				if len(c.Req) == 0 && c.Orig.NilParts {
+				if len(c.Req) == 0 && c.Orig.NilParts && !c.ReqDevRules {
 					rr = nil // an update request without a resources section at all
 				}
 				if shared != nil {
